@@ -13,13 +13,16 @@ def run_setup():
         if spec["kind"] != "prog":
             if "setup" in spec:
                 spec["setup"](pid, spec)
+                print("set up %s (%.0fs)" % (pid, time.time() - t0), flush=True)
             continue
-        for c in spec["configs"]:
-            key = (spec["target"], c)
-            if key in done:
-                continue
-            done.add(key)
-            build.build_target(spec["target"], c, want_fuzzer=True)
-            print("built %s/%s (%.0fs)" % (spec["target"], c, time.time() - t0), flush=True)
+        parts = spec.get("parts") or [dict(target=spec["target"], configs=spec["configs"])]
+        for part in parts:
+            for c in part["configs"]:
+                key = (part["target"], c)
+                if key in done:
+                    continue
+                done.add(key)
+                build.build_target(part["target"], c, want_fuzzer=True)
+                print("built %s/%s (%.0fs)" % (part["target"], c, time.time() - t0), flush=True)
     print("setup done in %.0fs" % (time.time() - t0))
     return 0
